@@ -10,3 +10,5 @@ def run(ctx, rep):
     threads.rule_T4_queue_writers(mod, rep)
     sync.rule_O5_volatile(mod, rep)
     sync.rule_O2_done_after_release(mod, rep)
+    lock.rule_L1_pairing(mod, rep, ctx.config)
+    lock.rule_L2_guarded_by(mod, rep, ctx.config)
